@@ -27,6 +27,9 @@ pub enum Op {
     StoreWeak { w: Id, owner: Id },
     TryUnwrap { h: Id, v: Id },
     MakeMut { h: Id, o2: Id },
+    /// `Rc::make_mut` applied in place to the handle `slot` stored in the value behind
+    /// `owner` (a list node calling make_mut on its `next` field).
+    SlotMakeMut { owner: Id, slot: Id, o2: Id },
     GetMut { h: Id },
     IntoRaw { h: Id, r: Id },
     FromRaw { r: Id, h: Id },
@@ -62,6 +65,7 @@ impl Op {
             Op::StoreWeak { .. } => "StoreWeak",
             Op::TryUnwrap { .. } => "TryUnwrap",
             Op::MakeMut { .. } => "MakeMut",
+            Op::SlotMakeMut { .. } => "SlotMakeMut",
             Op::GetMut { .. } => "GetMut",
             Op::IntoRaw { .. } => "IntoRaw",
             Op::FromRaw { .. } => "FromRaw",
@@ -93,6 +97,7 @@ impl Op {
             Op::StoreWeak { w, owner } => vec![w, owner],
             Op::TryUnwrap { h, v } => vec![h, v],
             Op::MakeMut { h, o2 } => vec![h, o2],
+            Op::SlotMakeMut { owner, slot, o2 } => vec![owner, slot, o2],
             Op::GetMut { h } => vec![h],
             Op::IntoRaw { h, r } => vec![h, r],
             Op::FromRaw { r, h } => vec![r, h],
@@ -137,6 +142,7 @@ impl Op {
             "StoreWeak" => { need(2)?; Op::StoreWeak { w: a[0], owner: a[1] } }
             "TryUnwrap" => { need(2)?; Op::TryUnwrap { h: a[0], v: a[1] } }
             "MakeMut" => { need(2)?; Op::MakeMut { h: a[0], o2: a[1] } }
+            "SlotMakeMut" => { need(3)?; Op::SlotMakeMut { owner: a[0], slot: a[1], o2: a[2] } }
             "GetMut" => { need(1)?; Op::GetMut { h: a[0] } }
             "IntoRaw" => { need(2)?; Op::IntoRaw { h: a[0], r: a[1] } }
             "FromRaw" => { need(2)?; Op::FromRaw { r: a[0], h: a[1] } }
